@@ -49,13 +49,13 @@ Qed.
 
 Lemma keep_push c pay : ckeep c (fst (fst (do_push c pay))).
 Proof.
-  unfold do_push. destruct (_ && _); [|apply keep_set_out].
+  unfold do_push. destruct (push_blocked c); [apply ckeep_refl|]. destruct (_ && _); [|apply keep_set_out].
   destruct (id2buf _ _) as [[bs u]| |]; [apply keep_set_out|apply ckeep_refl|apply ckeep_refl].
 Qed.
 
 Lemma keep_finish c : ckeep c (fst (fst (fst (do_finish c)))).
 Proof.
-  unfold do_finish. destruct (_ && _); [|apply keep_same; reflexivity].
+  unfold do_finish. destruct (push_blocked c); [apply ckeep_refl|]. destruct (_ && _); [|apply keep_same; reflexivity].
   destruct (id2buf _ _) as [[bs u]| |]; apply keep_same; reflexivity.
 Qed.
 
